@@ -68,7 +68,13 @@ class SemanticsAnalysis(progcheck.ProgramAnalysis):
         for a in self.ref.assumptions:
             smt.add(a)
         self.ref.assumptions = []
-        if smt.check() != z3.sat:
+        feas = smt.check()
+        if feas == z3.unknown:
+            feas = smt.check()           # a time-out under load is not a verdict: ask once more
+        if feas == z3.unknown:
+            r['inconclusive'].append('step %d: solver unknown on the feasibility of the path under the delay-time assumptions' % step['k'])
+            raise PathEnd()
+        if feas != z3.sat:
             raise PathEnd()
         exp = flatten(out)
         got = step['vm_out']
